@@ -351,3 +351,208 @@ Proof.
   destruct H as [H|[H1 H2]]; rewrite ?H, ?H1; cbn [bind negb]; [right; reflexivity|left].
   destruct (roll_rows (DInt t) rows) as [x|e]; cbn [rmap] in H2; [exact H2|discriminate].
 Qed.
+
+(* ------------------------------------------------------------------ getitem: (coords - start) // step *)
+(* what normalize_index leaves in a slice facing an axis of extent n *)
+Definition norm_slice (n start step : Z) : Prop :=
+  (0 < step /\ 0 <= start <= n) \/ (step < 0 /\ -1 <= start < n).
+
+(* the one condition the stored dtype must meet: the step itself is representable
+   (fails for a negative step on an unsigned type — finding D6 — and for |step| beyond the type) *)
+Definition getitem_clause (t : ity) (step : Z) : bool := fits (DInt t) step.
+
+Lemma ilo_signed_neg t : 0 < bits t -> sg t = true -> ilo t = - ihi t - 1 /\ ilo t <= -1.
+Proof.
+  intros Hb Hs. unfold ilo, ihi. rewrite Hs. pose proof (pow2_pos (bits t - 1) ltac:(lia)). lia.
+Qed.
+
+Theorem width_irrelevant_getitem_partial_proof t n start stop step c :
+  std t -> can_store (DInt t) n = true -> norm_slice n start step -> coords_in n c ->
+  getitem_clause t step = true ->
+  rmap tv (m_getitem (DInt t) start stop step c) = rmap tv (m_getitem DInf start stop step c).
+Proof.
+  intros St Hn Hsl Hc Hst. pose proof (std_pos t St) as Hb.
+  unfold can_store, s_can_store in Hn. unfold getitem_clause in Hst.
+  assert (Hstart : fits (DInt t) start = true).
+  { destruct Hsl as [[Hp Hs]|[Hp Hs]].
+    - apply (fits_le t n); auto.
+    - assert (sg t = true).
+      { apply fits_iff in Hst. unfold ilo in Hst. destruct (sg t); [reflexivity|lia]. }
+      destruct (ilo_signed_neg t Hb H) as [_ Hl].
+      apply fits_iff. apply fits_iff in Hn. lia. }
+  unfold m_getitem, s_getitem_map, arr_py. cbn [tdt tv]. rewrite Hstart. cbn [bind tdt tv].
+  rewrite Hst. cbn [fits bind tdt tv rmap]. f_equal. rewrite !map_map.
+  assert (Hf : Forall (fun x => 0 <= x < n /\ sel_mask start stop step x = true)
+                      (filter (sel_mask start stop step) c)).
+  { apply Forall_forall. intros x Hx. apply filter_In in Hx. destruct Hx as [Hi Hm].
+    split; [|exact Hm]. unfold coords_in in Hc. rewrite Forall_forall in Hc. apply Hc, Hi. }
+  eapply map_ext_Forall; [|exact Hf]. cbn beta. intros x [Hx Hm].
+  change (wr DInf (np_div (wr DInf (x - start)) step)) with (np_div (x - start) step).
+  apply fits_iff in Hn. pose proof (ilo_nonpos t Hb) as Hlo.
+  unfold sel_mask in Hm. unfold np_div.
+  destruct Hsl as [[Hp Hs]|[Hp Hs]].
+  - destruct (Z.ltb_spec 0 step); [|lia].
+    assert (start <= x) by lia.
+    assert (F1 : fits (DInt t) (x - start) = true) by (apply fits_iff; lia).
+    rewrite (wr_fits t _ Hb F1). destruct (Z.eqb_spec step 0); [lia|].
+    apply wr_fits; [exact Hb|]. apply fits_iff.
+    assert (0 <= (x - start) / step <= x - start).
+    { split; [apply Z.div_pos; lia|]. apply Z.div_le_upper_bound; [lia|]. nia. }
+    lia.
+  - destruct (Z.ltb_spec 0 step); [lia|].
+    assert (x <= start) by lia.
+    assert (Hsg : sg t = true).
+    { apply fits_iff in Hst. unfold ilo in Hst. destruct (sg t); [reflexivity|lia]. }
+    destruct (ilo_signed_neg t Hb Hsg) as [Hil _].
+    assert (F1 : fits (DInt t) (x - start) = true) by (apply fits_iff; lia).
+    rewrite (wr_fits t _ Hb F1). destruct (Z.eqb_spec step 0); [lia|].
+    apply wr_fits; [exact Hb|]. apply fits_iff.
+    assert (0 <= (x - start) / step <= start - x).
+    { rewrite <- (Z.div_opp_opp (x - start) step) by lia.
+      split; [apply Z.div_pos; lia|]. apply Z.div_le_upper_bound; [lia|]. nia. }
+    lia.
+Qed.
+
+(* when the step is not representable the call raises OverflowError — never a wrapped value,
+   but not the ValueError the property allows either *)
+Theorem getitem_unrepresentable_step_proof t start stop step c :
+  getitem_clause t step = false ->
+  m_getitem (DInt t) start stop step c = Raise OverflowError.
+Proof.
+  intros H. unfold getitem_clause in H.
+  unfold m_getitem, s_getitem_map, arr_py. cbn [tdt tv].
+  destruct (fits (DInt t) start); cbn [bind tdt]; [rewrite H|]; reflexivity.
+Qed.
+
+(* the full statement (no clause) is false: uint8 coordinates, x[::-1] (finding D6) *)
+Theorem getitem_refuted_proof :
+  exists t n start stop step c,
+    std t /\ can_store (DInt t) n = true /\ norm_slice n start step /\ coords_in n c /\
+    sg t = false /\ step < 0 /\
+    rmap tv (m_getitem (DInt t) start stop step c) <> rmap tv (m_getitem DInf start stop step c) /\
+    m_getitem (DInt t) start stop step c <> Raise ValueError.
+Proof.
+  exists u8, 100, 99, (-101), (-1), [0; 5; 99].
+  repeat split; try reflexivity; try lia.
+  - unfold std; cbn; lia.
+  - right; lia.
+  - repeat constructor; lia.
+  - vm_compute. congruence.
+  - vm_compute. congruence.
+Qed.
+
+Example width_irrelevant_getitem_nonvacuous :
+  std i8 /\ can_store (DInt i8) 100 = true /\ norm_slice 100 99 (-3) /\ coords_in 100 [0; 5; 96; 99] /\
+  getitem_clause i8 (-3) = true /\
+  rmap tv (m_getitem (DInt i8) 99 (-101) (-3) [0; 5; 96; 99]) = Ok [33; 1; 0].
+Proof.
+  repeat split; try reflexivity; [unfold std; cbn; lia|right; lia|repeat constructor; lia].
+Qed.
+
+(* ------------------------------------------------------------------ reshape: dtype re-choice *)
+Lemma zmax_ge l x : In x l -> x <= zmax l.
+Proof.
+  induction l as [|a r IH]; cbn; [tauto|]. intros [->|H]; [lia|]. specialize (IH H). unfold zmax in IH. lia.
+Qed.
+
+Lemma zmax_nonneg l : 0 <= zmax l.
+Proof. induction l as [|a r IH]; cbn; [lia|]. unfold zmax in IH. lia. Qed.
+
+Lemma reshape_dtype_chosen t shape :
+  std t -> zmax shape < 2 ^ 64 ->
+  exists d', reshape_dtype (DInt t) shape = Ok d' /\
+             (shape = [] \/ exists t', d' = DInt t' /\ std t' /\ fits (DInt t') (zmax shape) = true).
+Proof.
+  intros St Hm. unfold reshape_dtype. destruct shape as [|a r]; cbn [negb andb].
+  - eexists; split; [reflexivity|left; reflexivity].
+  - set (m := zmax (a :: r)) in *. destruct (can_store (DInt t) m) eqn:E; cbn [negb].
+    + eexists; split; [reflexivity|right; exists t; auto].
+    + destruct (ext_min_scalar_type_nonneg m ltac:(pose proof (zmax_nonneg (a :: r)); lia)) as [t' [E' [S' F']]].
+      unfold g_reshape_choice. rewrite E'. cbn [bind dec_dty1 dec_dty].
+      rewrite pyv_dty_roundtrip by (apply std_pos, S').
+      eexists; split; [reflexivity|right; eauto].
+Qed.
+
+Lemma digit_rows_inf t m lin : forall rshape stride,
+  0 < bits t -> fits (DInt t) m = true -> Forall (fun d => 0 < d <= m) rshape ->
+  map tv (digit_rows s_reshape_digit (DInt t) lin stride rshape) =
+  map tv (digit_rows s_reshape_digit DInf lin stride rshape).
+Proof.
+  induction rshape as [|dim r IH]; intros stride Hb Hm Hd; [reflexivity|].
+  inversion Hd as [|? ? Hdim Hr]; subst. cbn [digit_rows map]. rewrite IH by assumption. f_equal.
+  unfold s_reshape_digit, assign_into, astype. cbn [tv]. rewrite !map_map.
+  apply map_ext. intros l. change (wr DInf ?z) with z.
+  apply wr_fits; [exact Hb|]. apply (fits_le t m); [exact Hb|exact Hm|].
+  unfold np_mod. destruct (Z.eqb_spec dim 0); [lia|].
+  pose proof (Z.mod_pos_bound (np_div l stride) dim ltac:(lia)). lia.
+Qed.
+
+Theorem width_irrelevant_reshape_proof t lin shape :
+  std t -> Forall (fun d => 0 < d) shape -> zmax shape < 2 ^ 64 ->
+  rmap (map tv) (m_reshape (DInt t) lin shape) = rmap (map tv) (m_reshape DInf lin shape).
+Proof.
+  intros St Hpos Hm. unfold m_reshape.
+  destruct (reshape_dtype_chosen t shape St Hm) as [d' [E C]]. rewrite E. cbn [bind rmap].
+  assert (Einf : reshape_dtype DInf shape = Ok DInf).
+  { unfold reshape_dtype. rewrite can_store_inf. cbn [negb]. rewrite andb_false_r. reflexivity. }
+  rewrite Einf. cbn [bind rmap]. f_equal. rewrite !map_rev. f_equal.
+  destruct C as [->|[t' [-> [S' F']]]]; [reflexivity|].
+  apply (digit_rows_inf t' (zmax shape)); [apply std_pos, S'|exact F'|].
+  apply Forall_rev. apply Forall_forall. intros d Hd. rewrite Forall_forall in Hpos.
+  split; [apply Hpos, Hd|apply zmax_ge, Hd].
+Qed.
+
+Example width_irrelevant_reshape_nonvacuous :
+  std i8 /\ Forall (fun d => 0 < d) [2000] /\
+  m_reshape (DInt i8) [0; 1999; 1000] [2000] = Ok [mkT (DInt u16) [0; 1999; 1000]] /\
+  rmap (map tv) (m_reshape (DInt i8) [0; 1999; 1000] [100; 20]) = Ok [[0; 99; 50]; [0; 19; 0]].
+Proof. repeat split; try reflexivity; [unfold std; cbn; lia|repeat constructor; lia]. Qed.
+
+(* ------------------------------------------------------------------ reductions: _calc_counts_invidx + reduceat
+   Since 5f3fb78 the kernel returns intp arrays: the dtype of `groups` no longer enters. *)
+Theorem width_irrelevant_reduce_proof t g x :
+  m_grouped_sum (DInt t) g x = m_grouped_sum DInf g x /\
+  m_counts_invidx (DInt t) g = m_counts_invidx DInf g.
+Proof. split; reflexivity. Qed.
+
+(* and the offsets themselves are the true ones (nothing wraps in intp below 2^63 elements) *)
+Fixpoint incr_from (lo : Z) (l : list Z) (hi : Z) : Prop :=
+  match l with [] => True | a :: r => lo <= a < hi /\ incr_from (a + 1) r hi end.
+
+Lemma group_starts_incr g : forall prev i, incr_from i (group_starts prev i g) (i + Z.of_nat (length g)).
+Proof.
+  induction g as [|x r IH]; intros prev i; cbn [group_starts length]; [exact I|].
+  rewrite Nat2Z.inj_succ.
+  destruct (x =? prev).
+  - specialize (IH prev (i + 1)). replace (i + Z.succ (Z.of_nat (length r))) with (i + 1 + Z.of_nat (length r)) by lia.
+    revert IH. generalize (group_starts prev (i + 1) r). intros l. destruct l; cbn; [tauto|]. intros [H1 H2]. split; [lia|exact H2].
+  - cbn [incr_from]. split; [lia|].
+    specialize (IH x (i + 1)). replace (i + Z.succ (Z.of_nat (length r))) with (i + 1 + Z.of_nat (length r)) by lia. exact IH.
+Qed.
+
+Lemma incr_from_bounds lo l hi : incr_from lo l hi -> Forall (fun a => lo <= a < hi) l.
+Proof.
+  revert lo. induction l as [|a r IH]; intros lo H; [constructor|]. destruct H as [H1 H2].
+  constructor; [exact H1|]. eapply Forall_impl; [|apply (IH _ H2)]. cbn. lia.
+Qed.
+
+Theorem counts_invidx_exact_proof t g :
+  Z.of_nat (length g) < 2 ^ 63 ->
+  tv (fst (m_counts_invidx (DInt t) g)) = starts g /\
+  Forall (fun a => 0 <= a < Z.of_nat (length g)) (starts g).
+Proof.
+  intros Hn.
+  assert (B : Forall (fun a => 0 <= a < Z.of_nat (length g)) (starts g)).
+  { destruct g as [|x r]; [constructor|]. unfold starts. cbn [length]. rewrite Nat2Z.inj_succ.
+    constructor; [lia|]. pose proof (group_starts_incr r x 1) as H. apply incr_from_bounds in H.
+    eapply Forall_impl; [|exact H]. cbn. lia. }
+  split; [|exact B].
+  unfold m_counts_invidx, s_counts_cast, astype. cbn [fst tv].
+  apply map_wr_id; [cbn; lia|]. eapply Forall_impl; [|exact B]. cbn beta. intros a Ha.
+  apply fits_iff. cbn. lia.
+Qed.
+
+Example width_irrelevant_reduce_nonvacuous :
+  m_grouped_sum (DInt u8) (repeat 0 (Z.to_nat 200) ++ repeat 1 (Z.to_nat 200) ++ repeat 2 (Z.to_nat 200))
+                (repeat 1 (Z.to_nat 600)) = Ok [(0, 200); (1, 200); (2, 200)].
+Proof. vm_compute. reflexivity. Qed.
